@@ -835,9 +835,11 @@ theorem login_ok {mt : TokType} {sd sm : Int} {a : LoginAuth} {t : LoginTok} (h 
     · rename_i hfb
       split at h
       · contradiction
-      · injection h with h
-        subst h
-        exact ⟨ttl, w, hc, rfl, rfl, hfb, rfl, rfl⟩
+      · split at h
+        · contradiction
+        · injection h with h
+          subst h
+          exact ⟨ttl, w, hc, rfl, rfl, hfb, rfl, rfl⟩
   · contradiction
 
 
